@@ -11,13 +11,18 @@
     (the Go functions parse the whole input before the first edit: regenerated fact `Facts.parseBeforeEdit`, checked by
     `parse_before_edit`).
 
-  Missing: the per-statement commuting squares (L-read) and the preservation of the map invariant by the edit
-  primitives.  They are covered by correspondence (white-box state after every script, including the position maps,
+  * `load_keeps_inv` — every load (any dialect, any split into calls) from the empty model ends in a state whose
+    slices and position maps agree (`Migration.Inv`), under the side condition that a RENAME targets a name the table
+    does not hold; `rename_onto_existing_breaks` shows the condition is needed: the Go bookkeeping (and the model)
+    ends with two columns of one name when it is violated.
+
+  Missing: the per-statement commuting squares (L-read).  They are covered by correspondence (white-box state after every script, including the position maps,
   plus `invCheck` on the Go state) and by the executable predicate (dump → grammar → reference engine) on every case.
 -/
 import SqlizeModel.Impl.Api
 import SqlizeModel.Spec.Scope
 import SqlizeModel.Generated.Facts
+import SqlizeModel.Proofs.ReaderPending
 
 namespace Sqlize.C05
 open Sqlize Sqlize.Spec
@@ -64,6 +69,17 @@ theorem failed_unchanged (g : Globals) (m : Migration) (ss : List Stmt) :
     (fromString g m (.ok ss)).2.isSome → (fromString g m (.ok ss)).1 = m := by
   unfold fromString
   cases h : readScript g m ss <;> simp [h]
+
+/-- every load keeps slices and position maps consistent -/
+theorem load_keeps_inv (g : Globals) (calls : List (List Stmt)) (m : Migration) (hf : CallsFresh g {} calls)
+    (hs : readCalls g {} calls = .ok m) : m.Inv :=
+  readCalls_inv g calls {} m Migration.inv_empty hf hs
+
+/-- the side condition is needed: a rename onto an existing column name leaves two columns of one name -/
+theorem rename_onto_existing_breaks :
+    ∃ m, ReaderMysql.run {} [.createTable "t" 0 [{ name := "a", typ := "int" }, { name := "b", typ := "int" }] [],
+                             .renameColumn "t" "a" "b"] = .ok m ∧
+      (m.tables.map (fun t => t.cols.map (·.name))) = [["b", "b"]] := ⟨_, by rfl, by rfl⟩
 
 /-- regenerated fact: in every `Parser*` function the parse call and its `return err` precede the first edit -/
 theorem parse_before_edit : ∀ p ∈ Facts.parseBeforeEdit, p.2 = true := by decide
